@@ -48,6 +48,8 @@ THEOREMS = [P + t for t in (
     "site_dissipator_trace_annihilating", "nn_dissipator_trace_annihilating",
     "hamiltonian_terms_trace_annihilating", "dissipators_hermiticity_preserving",
     "hamiltonian_terms_hermiticity_preserving", "kronecker_is_pairing",
+    # Props/C10Gksl.lean: the generated site terms are of GKSL form; first-order complete positivity
+    "site_dissipation_is_gksl", "site_hamiltonian_is_commutator", "site_liouvillian_first_order_kraus",
 )]
 
 KEY_MODE = "execution mode %s unusable in a fresh interpreter (%s)"
@@ -1542,7 +1544,8 @@ def run(tier, seed, replay):
             fw.log("OK property=%s replay=%s no longer fails" % (PID, replay))
         return rc
 
-    fw.standard_pipeline(res, ["TebdLayers", "ChainLindblad", "ControlCompose"], THEOREMS)
+    fw.standard_pipeline(res, ["TebdLayers", "ChainLindblad", "ControlCompose"], THEOREMS,
+                         extra_modules=["OQuPyVerif.Props.C10Gksl"])
     built = all(o[1] for o in res.obligations if o[0].startswith("translator"))
     try:
         if built:
